@@ -34,11 +34,17 @@ RULE = ('cases = (a) chi² vector over {1, 2, 3.5, +inf, NaN} of length 0..5 (or
         'with / without model_fluxes; (b) distance-independent package (some models duplicated), extinction law, '
         'A_V range, sources (some with confidence-1 limits).  Non-trivial: at least 2 models.  Distinct = distinct '
         'canonical hash of the generated inputs')
-REQUIRED_BRANCHES = ['direct', 'near_tie', 'near_tie_ulp', 'e2e_near_tie', 'tie', 'inf', 'nan', 'already_ranked', 'reordered', 'no_fluxes', 'with_fluxes',
+REQUIRED_BRANCHES = ['two_fitters', 'two_fitters_memmap', 'two_fitters_other_shape', 'two_fitters_same_shape',
+                     'e2e3d_pkg_v1', 'e2e3d_pkg_cube', 'e2e3d_pkg_cube_memmap', 'direct', 'near_tie', 'near_tie_ulp', 'e2e_near_tie', 'tie', 'inf', 'nan', 'already_ranked', 'reordered', 'no_fluxes', 'with_fluxes',
                      'e2e', 'e2e_tie', 'e2e_1e30', 'e2e_clamped', 'e2e_reordered',
                      'e2e3d', 'e2e3d_tie', 'e2e3d_mask_changed_best', 'e2e3d_reordered', 'e2e3d_predicted_independent', 'e2e3d_dist_kpc', 'e2e3d_dist_pc', 'e2e3d_dist_other_unit',
                      'e2e_cube', 'e2e_cube_long_names', 'e2e_cube_shared_prefix', 'e2e_cube_reordered']
-ASSUMPTIONS = ['"non-decreasing chi²" is checked EXACTLY on the own float64 numbers of the implementation, its chi² column (NaN last), with no '
+ASSUMPTIONS = ['histories: two Fitter objects alive at once on packages with the same models.conf name (default use_memmap for '
+               'cube packages): fit with the first, construct and use the second, fit with the first again - the rows must be '
+               'identical to the first fit (and, up to the float32 budget of memmap storage, those of the model); the '
+               'distance-dependent block keeps the full-package and the one-model Fitters alive together in all three package '
+               'formats (files, cube, cube + memmap)',
+               '"non-decreasing chi²" is checked EXACTLY on the own float64 numbers of the implementation, its chi² column (NaN last), with no '
                'tolerance and no margin relaxation, also for chi² values that differ by 1 ulp .. 1e-8 relative (near-ties, built '
                'directly and produced by the fitter from near-duplicate models); only the comparison of the row ORDER with the '
                'model is relaxed inside near-tie groups',
@@ -60,6 +66,7 @@ EXHAUSTIVE = {'quick': False, 'thorough': True}
 N_E2E = {'quick': 45, 'thorough': 3000}
 N_E2E3D = {'quick': 14, 'thorough': 900}
 N_CUBE = {'quick': 24, 'thorough': 1500}
+N_TWO = {'quick': 16, 'thorough': 600}
 N_DIRECT_QUICK = 700
 
 
@@ -124,8 +131,12 @@ def gen_cases(seed, tier):
         yield gen_e2e(case_rng(seed, PID, 'directed-%d' % i), d)
     yield gen_cube(case_rng(seed, PID, 'directed-cube-0'), directed=True)
     yield gen_cube(case_rng(seed, PID, 'directed-cube-1'), directed=True)
+    for i, (pkg, shape) in enumerate([('cube_memmap', 'same'), ('cube_memmap', 'fewer_bands'), ('cube_memmap', 'more_models'),
+                                      ('cube', 'same'), ('v1_mJy', 'more_models')]):
+        yield gen_two_fitters(case_rng(seed, PID, 'directed-two-%d' % i), pkg, shape)
     for i in range(3):
-        yield gen_e2e3d_masked(case_rng(seed, PID, 'directed-3d-masked-%d' % i), unit=['kpc', 'pc', 'lyr'][i])
+        yield dict(gen_e2e3d_masked(case_rng(seed, PID, 'directed-3d-masked-%d' % i), unit=['kpc', 'pc', 'lyr'][i]),
+                   pkg3d=['v1', 'cube', 'cube_memmap'][i])
     yield gen_e2e3d(case_rng(seed, PID, 'directed-3d-0'), resolved=True, dup=True, unit='pc')
     yield gen_e2e3d(case_rng(seed, PID, 'directed-3d-1'), resolved=True, dup=True, unit='Mpc')
     yield gen_e2e3d(case_rng(seed, PID, 'directed-3d-2'), resolved=False, dup=False, unit='cm')
@@ -157,6 +168,8 @@ def gen_cases(seed, tier):
         yield gen_e2e3d(case_rng(seed, PID, 'f%d' % k))
     for k in range(N_CUBE[tier]):
         yield gen_cube(case_rng(seed, PID, 'g%d' % k))
+    for k in range(N_TWO[tier]):
+        yield gen_two_fitters(case_rng(seed, PID, 'h%d' % k))
 
 
 def cube_names(rng, nm, long_names=True):
@@ -279,9 +292,22 @@ def gen_e2e3d(rng, resolved=None, dup=None, unit=None):
                 err.append(float('%.3g' % (f * common.nice(rng, 0.01, 0.3, 2))))
         sources.append(dict(flags=flags, flux=flux, err=err))
     return give_distance_unit(rng, dict(
-        kind='e2e3d', wavs=wavs, aps=aps, models=models, tab_w=tw, tab_chi=chi,
+        pkg3d=rng.choice(['v1', 'v1', 'cube', 'cube_memmap']), kind='e2e3d', wavs=wavs, aps=aps, models=models, tab_w=tw, tab_chi=chi,
         av=[0., float('%.2g' % rng.uniform(1., 40.))], dist=[dlo, dhi], logd_step=rng.choice([0.02, 0.05, 0.2]),
         ap_arcsec=ap_arcsec, remove_resolved=resolved, sources=sources), unit)
+
+
+def gen_two_fitters(rng, pkg=None, shape=None):
+    """history: Fitter A fits, Fitter B (another package with the SAME models.conf name, possibly another shape) is
+    created and used while A is alive, A fits again"""
+    case = c01.gen_case(rng)
+    case['kind'] = 'two_fitters'
+    case['pkg'] = pkg or rng.choice(['cube_memmap', 'cube_memmap', 'cube_memmap', 'cube', 'v1_mJy'])
+    case['rebuild'] = False
+    case['other_shape'] = shape or rng.choice(['same', 'fewer_bands', 'more_models'])
+    if case['other_shape'] == 'fewer_bands' and len(case['wavs']) < 3:
+        case['other_shape'] = 'more_models'
+    return case
 
 
 def gen_e2e3d_masked(rng, unit=None):
@@ -563,19 +589,36 @@ def run_e2e(case):
 
 
 def build3d(case, d, which, remove_resolved=None):
-    """package holding the models `which` (indices) of the case"""
+    """package holding the models `which` (indices) of the case: convolved-flux files (version 1) or an SED cube
+    fitted at its tabulated wavelengths (version 2), the latter with or without use_memmap (float32 scratch files)"""
+    from astropy import units as u
     names = ['m%03d' % i for i in which]
-    pk.write_conf(d, aperture_dependent=True, logd_step=case['logd_step'])
-    fnames = []
-    for j, w in enumerate(case['wavs']):
-        fn = 'F%d' % j
-        fnames.append(fn)
-        flux = [[case['models'][i][a][j] for a in range(len(case['aps']))] for i in which]
-        pk.write_convolved(d, fn, w, names, flux, np.zeros((len(which), len(case['aps']))), apertures_au=case['aps'])
+    pkg = case.get('pkg3d', 'v1')
+    rr = case['remove_resolved'] if remove_resolved is None else remove_resolved
     ext = pk.make_extinction(case['tab_w'], case['tab_chi'])
+    if pkg == 'v1':
+        pk.write_conf(d, aperture_dependent=True, logd_step=case['logd_step'])
+        fnames = []
+        for j, w in enumerate(case['wavs']):
+            fn = 'F%d' % j
+            fnames.append(fn)
+            flux = [[case['models'][i][a][j] for a in range(len(case['aps']))] for i in which]
+            pk.write_convolved(d, fn, w, names, flux, np.zeros((len(which), len(case['aps']))), apertures_au=case['aps'])
+        use_memmap = False
+    else:
+        allw = sorted(list(case['wavs']) + [min(case['wavs']) / 3., max(case['wavs']) * 3.])
+        val = np.ones((len(which), len(case['aps']), len(allw)))
+        for r, i in enumerate(which):
+            for a in range(len(case['aps'])):
+                for j, w in enumerate(case['wavs']):
+                    val[r, a, allw.index(w)] = case['models'][i][a][j]
+        pk.write_cube_package(d, names, allw, val, np.zeros_like(val), apertures_au=case['aps'], aperture_dependent=True,
+                              logd_step=case['logd_step'])
+        fnames = [w * u.micron for w in case['wavs']]
+        use_memmap = (pkg == 'cube_memmap')
     fitter = pk.make_fitter(d, fnames, case['ap_arcsec'], ext, case['av'],
                             distance_range_kpc=case.get('dist_given', case['dist']), distance_unit=case.get('dist_unit'),
-                            remove_resolved=case['remove_resolved'] if remove_resolved is None else remove_resolved)
+                            remove_resolved=rr, use_memmap=use_memmap)
     return fitter, names
 
 
@@ -598,6 +641,8 @@ def expected_predicted3(case, m, av, sc):
 def run_e2e3d(case):
     root = tempfile.mkdtemp(prefix='c04_3d_')
     br = {'e2e3d'}
+    br.add('e2e3d_pkg_' + case.get('pkg3d', 'v1'))
+    ptol = 2e-6 if case.get('pkg3d') == 'cube_memmap' else 1e-9       # float32 storage of the model fluxes
     du = case.get('dist_unit', 'kpc')
     br.add('e2e3d_dist_kpc' if du == 'kpc' else 'e2e3d_dist_pc' if du == 'pc' else 'e2e3d_dist_other_unit')
     key = common.canon_hash(case)
@@ -658,7 +703,7 @@ def run_e2e3d(case):
                 want = expected_predicted3(case, m, float(got['av'][i]), float(got['sc'][i]))
                 have = [float(x) for x in got['model_fluxes'][i]]
                 br.add('e2e3d_predicted_independent')
-                if len(have) != len(want) or not all(common.close(a, b, 1e-9) for a, b in zip(have, want)):
+                if len(have) != len(want) or not all(common.close(a, b, ptol) for a, b in zip(have, want)):
                     return CaseResult(False, detail=(
                         'distance_range = %r %s; source %d row %d (model %s, av=%r, sc=%r i.e. d=%r kpc): stored predicted log fluxes %r; the model\'s fluxes '
                         'interpolated to the apertures theta*d, scaled by d^-2, plus av*k give %r'
@@ -699,7 +744,121 @@ def run_e2e3d(case):
         shutil.rmtree(root, ignore_errors=True)
 
 
+def other_package(case):
+    """a second package with other fluxes (and possibly another shape) under the same models.conf name"""
+    b = dict(case)
+    b['models'] = [[float('%.4g' % (x * (1.7 + 0.3 * ((i + j) % 5)))) for j, x in enumerate(mf)][::-1]
+                   for i, mf in enumerate(case['models'])][::-1]
+    b['sources'] = [dict(flags=list(s_['flags']), flux=list(s_['flux']), err=list(s_['err'])) for s_ in case['sources']]
+    if case['other_shape'] == 'more_models':
+        b['models'] = b['models'] + [[float('%.4g' % (x * 3.3)) for x in mf] for mf in b['models'][:2]]
+    elif case['other_shape'] == 'fewer_bands':
+        for k in ('wavs', 'req_wavs', 'filt_units'):
+            if b.get(k):
+                b[k] = list(b[k])[:-1]
+        b['models'] = [mf[:-1] for mf in b['models']]
+        for s_ in b['sources']:
+            for k in ('flags', 'flux', 'err'):
+                s_[k] = s_[k][:-1]
+    return b
+
+
+def run_two_fitters(case):
+    import os
+    root = tempfile.mkdtemp(prefix='c04_two_')
+    br = {'two_fitters', 'two_fitters_same_shape' if case['other_shape'] == 'same' else 'two_fitters_other_shape'}
+    if case['pkg'] == 'cube_memmap':
+        br.add('two_fitters_memmap')
+    key = common.canon_hash(case)
+    relaxed = 0
+    try:
+        da, db = os.path.join(root, 'A'), os.path.join(root, 'B')
+        os.makedirs(da)
+        os.makedirs(db)
+        other = other_package(case)
+        srcs = [(si, src) for si, src in enumerate(case['sources']) if not c01.singular(case, src)]
+
+        def fit_all(fitter, which):
+            out = {}
+            for si, src in which:
+                s = pk.make_source('s%d' % si, src['flags'], src['flux'], src['err'])
+                with common.quiet():
+                    out[si] = pk.fit_arrays(fitter.fit(s))
+            return out
+
+        def same_rows(a, b):
+            return (a['name'] == b['name'] and a['model_id'] == b['model_id']
+                    and all(np.array_equal(a[k], b[k], equal_nan=True) for k in ('av', 'sc', 'chi2', 'model_fluxes')))
+
+        try:
+            fa, names = c01.build(case, da)
+            first = fit_all(fa, srcs)
+            fb, _ = c01.build(other, db)                       # same models.conf name, A still alive
+            b_first = fit_all(fb, list(enumerate(other['sources']))[:1])
+            second = fit_all(fa, srcs)
+            b_second = fit_all(fb, list(enumerate(other['sources']))[:1])
+        except Exception as e:
+            return CaseResult(False, detail='two Fitters alive (%s packages, second one %s): %s: %s'
+                              % (case['pkg'], case['other_shape'], type(e).__name__, e), violates=True, branches=br, key=key)
+        for label, one, two, nms in (('first', first, second, names), ('second', b_first, b_second, None)):
+            for si in one:
+                if not same_rows(one[si], two[si]):
+                    a, b = one[si], two[si]
+                    return CaseResult(False, detail=(
+                        'two Fitters alive on %s packages with the same models.conf name (the other one has %s): the %s Fitter fitted '
+                        'source %d, then the other Fitter was %s, then the %s Fitter fitted the same source again. Before: names %r '
+                        'model_id %r av %r chi2 %r fluxes[0] %r; after: names %r model_id %r av %r chi2 %r fluxes[0] %r - the rows no '
+                        'longer describe the models they name'
+                        % (case['pkg'], case['other_shape'], label, si, 'created and used' if label == 'first' else 'used again', label,
+                           a['name'], a['model_id'], [float(x) for x in a['av']], [float(x) for x in a['chi2']],
+                           [float(x) for x in a['model_fluxes'][0]], b['name'], b['model_id'], [float(x) for x in b['av']],
+                           [float(x) for x in b['chi2']], [float(x) for x in b['model_fluxes'][0]])),
+                        violates=True, branches=br, key=key)
+        # and the rows are those of the model (float32 budget for memmap storage)
+        lo, hi = case['av']
+        for si, src in srcs:
+            got = second[si]
+            exp = c01.model_side(case, src)
+            if sorted(got['model_id']) != list(range(len(names))) or not ef.is_ranked(got['chi2']):
+                return CaseResult(False, detail='source %d: model_id %r chi2 %r' % (si, got['model_id'], [float(c) for c in got['chi2']]),
+                                  violates=True, branches=br, key=key)
+            for i, m in enumerate(got['model_id']):
+                e = exp[m]
+                if got['name'][i] != names[m]:
+                    return CaseResult(False, detail='source %d row %d: model_name %r but names[model_id=%d] = %r'
+                                      % (si, i, got['name'][i], m, names[m]), violates=True, branches=br, key=key)
+                tol = 1e-9 * max(1., e['cond'])
+                scale = 1. + abs(float(e['av'])) + abs(float(e['sc']))
+                dav = dsc = dchi = dres = 0.
+                guard = 1e-7 * scale
+                if case['pkg'] == 'cube_memmap':
+                    dav, dsc, dchi, dres = c01.f32_budget(case, src, e)
+                    guard = max(guard, 20. * max(dav, dres))
+                if e['margin'] < guard:
+                    relaxed += 1
+                    continue
+                ok = (abs(got['av'][i] - float(e['av'])) <= tol * (1. + abs(float(e['av']))) + dav
+                      and abs(got['sc'][i] - float(e['sc'])) <= tol * (1. + abs(float(e['sc']))) + dsc
+                      and abs(got['chi2'][i] - float(e['chi2'])) <= max(tol, 1e-9) * 10 * (1. + abs(float(e['chi2']))) + dchi
+                      and all(abs(a - float(b)) <= tol * 10 * scale + 2. * dres + 1e-12
+                              for a, b in zip(got['model_fluxes'][i], e['pred'])))
+                if not ok:
+                    return CaseResult(False, detail=(
+                        'two Fitters alive; source %d row %d names model %s but carries (av, sc, chi2) = (%r, %r, %r), predicted %r; that '
+                        'model has (%r, %r, %r), predicted %r' % (si, i, names[m], float(got['av'][i]), float(got['sc'][i]),
+                                                                 float(got['chi2'][i]), [float(x) for x in got['model_fluxes'][i]],
+                                                                 float(e['av']), float(e['sc']), float(e['chi2']),
+                                                                 [float(p) for p in e['pred']])), violates=True, branches=br, key=key)
+        return CaseResult(True, branches=br, key=key, nontrivial=bool(srcs), relaxed=relaxed,
+                          sample=dict(kind='two_fitters', pkg=case['pkg'], other_shape=case['other_shape'],
+                                      n_models=len(case['models']), n_bands=len(case['wavs'])))
+    finally:
+        shutil.rmtree(root, ignore_errors=True)
+
+
 def run_case(case):
+    if case['kind'] == 'two_fitters':
+        return run_two_fitters(case)
     if case['kind'] == 'direct':
         return run_direct(case)
     if case['kind'] == 'e2e3d':
